@@ -72,8 +72,29 @@ def make_hosts(log):
                 mon.paused -= 1
         return x
 
+    def ctxcall(f, *a):
+        # the host runs the program's lambda in a fresh contextvars.Context (what an executor / event loop does)
+        import contextvars
+        return contextvars.Context().run(f, *a)
+
+    def threadcall(f, *a):
+        import threading
+        box = {}
+
+        def work():
+            try:
+                box['r'] = f(*a)
+            except BaseException as e:  # noqa
+                box['e'] = e
+        th = threading.Thread(target=work)
+        th.start()
+        th.join()
+        if 'e' in box:
+            raise box['e']
+        return box.get('r')
+
     sub._ctx = ctx
-    return {'t': t, 'call': call, 'safe': safe, 'sub': sub}
+    return {'t': t, 'call': call, 'safe': safe, 'sub': sub, 'ctxcall': ctxcall, 'threadcall': threadcall}
 
 
 def build_ast_names(spec):
@@ -296,6 +317,10 @@ PROBES = [
     'm = items(dd) | map(p => t(p[0]))',
     'del dd[t("k")]',
     'nn | map(row => row | map(c => t(c)))',
+    'ctxcall(v => t(v) * 2 + t(1), {d})',
+    'xs | map(v => ctxcall(w => t(w) + v, v))',
+    'threadcall(v => [t(v), t(v + 1)] | map(w => w * 2), {d})',
+    'ctxcall(k => fr3(k), {r})',
     'x = t(1)\nmissing_fn9(x)',
     'xs | map(v => nofn9(t(v)))',
     't({d}).nomethod9()',
@@ -365,10 +390,12 @@ def cases(draw):
             ast['zz'] = 'NOOP'
     if 'fr2(' in src:
         src = 'fr2 = k => 1 if k <= 1 else k * fr2(k - 1)\n' + src
+    if 'fr3(' in src:
+        src = 'fr3 = k => 1 if k <= 1 else k * fr3(k - 1)\n' + src
     return {'kind': 'single', 'src': src, 'env': core.enc(env), 'ast': ast, 'fracs': fracs, 'swallow': swallow}
 
 
-HOF_MARKS = ('map(', 'filter(', 'reduce(', 'sorted(', 'call(', 'safe(', 'fr(', 'fib(', 'h(')
+HOF_MARKS = ('ctxcall(', 'threadcall(', 'map(', 'filter(', 'reduce(', 'sorted(', 'call(', 'safe(', 'fr(', 'fib(', 'h(')
 
 
 def jobs(tier, seed):
